@@ -51,7 +51,14 @@ def install_demo(wt, demo, runmd):
                 out.write("\n" + open(p).read())
             placed.append("append:" + f)
             continue
-        # default: integration test of the engine
+        # default: integration test of the package named in the cargo command
+        pkg = "weechess-core" if re.search(r"-p\s+weechess_core[^\n]*--test\s+" + re.escape(f[:-3]), runmd) or \
+            (re.search(r"-p\s+weechess_core", runmd) and not re.search(r"-p\s+weechess_engine", runmd)) else "weechess-engine"
+        d = os.path.join(wt, pkg, "tests")
+        os.makedirs(d, exist_ok=True)
+        shutil.copy(p, os.path.join(d, f))
+        placed.append(pkg + "/tests/" + f)
+        continue
         d = os.path.join(wt, "weechess-engine/tests")
         os.makedirs(d, exist_ok=True)
         shutil.copy(p, os.path.join(d, f))
